@@ -442,3 +442,20 @@ for _p in ("C11", "C12"):
     if LIB_H2[0] not in PLAN[_p]["trusted_base"]:
         PLAN[_p]["trusted_base"] = PLAN[_p]["trusted_base"] + LIB_H2
 _extend("C12", [H1P + "stream_send"])
+
+# round 18 ------------------------------------------------------------------------------------------
+# C06 "reused only if ... neither side asked to close": h11 learns of the peer's EOF from the empty
+# read alone, which reaches it through the wrapper (C13.handover.event-first: every event is handed on)
+if PWR + "handle" not in PLAN["C06"]["units"]:
+    PLAN["C06"]["units"] = PLAN["C06"]["units"] + [PWR + "handle"]
+# C07 "an idle connection is closed at once when shutdown has begun": the idle tasks wait on the
+# worker's `terminated` event, and asyncio's Server.wait_closed() (3.12.1 and later) waits for the
+# connections -- the announcement has to precede that wait (serve.loop.announced / C15.order)
+for _u in SERVE_UNITS:
+    if _u not in PLAN["C07"]["units"]:
+        PLAN["C07"]["units"] = PLAN["C07"]["units"] + [_u]
+PLAN["C07"]["assumptions"] = PLAN["C07"]["assumptions"] + [a for a in SERVE_ASSUME if a not in PLAN["C07"]["assumptions"]]
+# C14 "startup.failed ... aborts the server with an error" with several workers: the failed worker's
+# exit code reaches the supervisor through hypercorn.run._join_exited (outside the VC generator)
+PLAN["C14"]["standins"] = PLAN["C14"].get("standins", []) + [{"file": "standins/join_exited.py", "name": "_join_exited reports a failed worker's exit code whatever else is reaped with it",
+                                                               "label": "BOUNDED stand-in, not counted as proved"}]
